@@ -297,6 +297,10 @@ void FileHDF5::close() {
     if (!isOpen())
         return;
 
+    // write out what is still cached while a failure can still be noticed:
+    // the result of the final H5Fclose is not available to us
+    bool complete = (mode == FileMode::ReadOnly) || flush();
+
     data.close();
     metadata.close();
     root.close();
@@ -328,6 +332,10 @@ void FileHDF5::close() {
     }
 
     H5Object::close();
+
+    if (!complete) {
+        throw H5Exception("FileHDF5::close(): the file could not be written completely");
+    }
 }
 
 
